@@ -97,3 +97,27 @@ BENIGN += [
     (DATA, "output_count += 1;\n                    continue;", "output_count += 1;\n                    // outputs are always kept\n                    continue;", "simplify: a comment"),
     (DATA, "*reg = workspace.get_or_insert_active(*reg);\n                    workspace.alloc.op(op);\n                    ops_out.push(op);\n                    output_count += 1;", "*reg = workspace.get_or_insert_active(*reg);\n                    output_count += 1;\n                    workspace.alloc.op(op);\n                    ops_out.push(op);", "simplify: move the output counter bump"),
 ]
+
+GRAD = "fidget-core/src/types/grad.rs"
+IVAL = "fidget-core/src/types/interval.rs"
+CTX = "fidget-core/src/context/mod.rs"
+TREE = "fidget-core/src/context/tree.rs"
+
+BENIGN += [
+    # ---- Grad ------------------------------------------------------------------
+    (GRAD, "let r = (1.0 - self.v.powi(2)).sqrt();\n        Grad {\n            v: self.v.asin(),\n            dx: self.dx / r,\n            dy: self.dy / r,\n            dz: self.dz / r,", "let denom = (1.0 - self.v.powi(2)).sqrt();\n        Grad {\n            v: self.v.asin(),\n            dx: self.dx / denom,\n            dy: self.dy / denom,\n            dz: self.dz / denom,", "Grad::asin: rename the local"),
+    (GRAD, "Grad {\n            v: self.v.ln(),\n            dx: self.dx / self.v,\n            dy: self.dy / self.v,\n            dz: self.dz / self.v,\n        }", "let v = self.v;\n        Grad {\n            v: v.ln(),\n            dx: self.dx / v,\n            dy: self.dy / v,\n            dz: self.dz / v,\n        }", "Grad::ln: name self.v"),
+    (GRAD, "Self {\n            v: self.v * rhs.v,\n            dx: self.v * rhs.dx + rhs.v * self.dx,\n            dy: self.v * rhs.dy + rhs.v * self.dy,\n            dz: self.v * rhs.dz + rhs.v * self.dz,\n        }", "Self {\n            dx: self.v * rhs.dx + rhs.v * self.dx,\n            dy: self.v * rhs.dy + rhs.v * self.dy,\n            dz: self.v * rhs.dz + rhs.v * self.dz,\n            v: self.v * rhs.v,\n        }", "Grad * Grad: reorder struct-literal fields"),
+    (GRAD, "pub fn min(self, rhs: Self) -> Self {\n        if self.v.is_nan() || rhs.v.is_nan() {\n            f32::NAN.into()\n        } else if self.v < rhs.v {\n            self\n        } else {\n            rhs\n        }", "pub fn min(self, rhs: Self) -> Self {\n        if self.v.is_nan() || rhs.v.is_nan() {\n            return f32::NAN.into();\n        }\n        if self.v < rhs.v { self } else { rhs }", "Grad::min: else-if chain -> early return"),
+    (GRAD, "if self.v == 0.0 { *self } else { rhs }", "if self.v == 0.0 {\n            // short-circuit\n            *self\n        } else {\n            rhs\n        }", "Grad::and: comment and layout"),
+    (GRAD, [("let e = self.v.div_euclid(rhs.v);", "let quot = self.v.div_euclid(rhs.v);"), ("dx: self.dx - rhs.dx * e,\n            dy: self.dy - rhs.dy * e,\n            dz: self.dz - rhs.dz * e,", "dx: self.dx - rhs.dx * quot,\n            dy: self.dy - rhs.dy * quot,\n            dz: self.dz - rhs.dz * quot,")], None, "Grad::rem_euclid: rename the quotient"),
+    # ---- Interval -----------------------------------------------------------------
+    (IVAL, ("nth", 0, "let choice = if self.upper < rhs.lower {\n            Choice::Left\n        } else if rhs.upper < self.lower {\n            Choice::Right\n        } else {\n            Choice::Both\n        };\n        (\n            Interval::new(self.lower.min(rhs.lower), self.upper.min(rhs.upper)),\n            choice,\n        )"), "let c = if self.upper < rhs.lower {\n            Choice::Left\n        } else if rhs.upper < self.lower {\n            Choice::Right\n        } else {\n            Choice::Both\n        };\n        let out = Interval::new(self.lower.min(rhs.lower), self.upper.min(rhs.upper));\n        (out, c)", "Interval::min_choice: rename choice, name the result"),
+    # ---- Context ------------------------------------------------------------------
+    (CTX, ("nth", 0, "if a == b {\n            Ok(a)\n        } else {\n            self.op_binary_commutative(a, b, BinaryOpcode::Min)\n        }"), "if a == b {\n            return Ok(a);\n        }\n        self.op_binary_commutative(a, b, BinaryOpcode::Min)", "Context::min: else -> early return"),
+    (CTX, "let op_a = *self.get_op(a).ok_or(BadNode)?;\n        if let Op::Const(v) = op_a {\n            if v.0 == 0.0 { Ok(a) } else { Ok(b) }\n        } else {\n            self.op_binary(a, b, BinaryOpcode::And)\n        }", "let op_a = *self.get_op(a).ok_or(BadNode)?;\n        match op_a {\n            Op::Const(v) => {\n                if v.0 == 0.0 { Ok(a) } else { Ok(b) }\n            }\n            _ => self.op_binary(a, b, BinaryOpcode::And),\n        }", "Context::and: if let -> match"),
+    (CTX, "let op_a = *self.get_op(a).ok_or(BadNode)?;\n        if let Op::Const(v) = op_a {\n            if v.0 == 0.0 { Ok(a) } else { Ok(b) }", "let lhs_op = *self.get_op(a).ok_or(BadNode)?;\n        if let Op::Const(c) = lhs_op {\n            if c.0 == 0.0 { Ok(a) } else { Ok(b) }", "Context::and: rename locals"),
+    # ---- TreeOp eq -------------------------------------------------------------------
+    (TREE, "(TreeOp::Input(a), TreeOp::Input(b)) => {\n                    if *a != *b {\n                        return false;\n                    }\n                }", "(TreeOp::Input(va), TreeOp::Input(vb)) => {\n                    if va != vb {\n                        return false;\n                    }\n                }", "TreeOp::eq: rename bindings, drop the derefs"),
+    (TREE, "// Pointer equality lets us short-circuit deep checks\n            if std::ptr::eq(a, b) {\n                continue;\n            }", "// Same allocation: nothing to compare below this pair\n            if std::ptr::eq(a, b) {\n                continue;\n            }", "TreeOp::eq: reword a comment"),
+]
